@@ -246,7 +246,7 @@ def shard(items, n):
     return [items[i:i + k] for i in range(0, len(items), k)]
 
 
-def run_impl(module_name, cases, per_case_timeout=5.0, flags=()):
+def run_impl(module_name, cases, per_case_timeout=5.0, flags=(), extra_env=None):
     """Run prop.impl(case) for all cases in worker subprocesses.  Returns list of outcomes (JSON values)."""
     if not cases:
         return []
@@ -262,7 +262,7 @@ def run_impl(module_name, cases, per_case_timeout=5.0, flags=()):
             with open(inp, 'w') as f:
                 json.dump([c for _, c in sh_cases], f)
             cmd = [PY, '-B'] + list(flags) + [os.path.join(HERE, 'worker.py'), module_name, inp, outp, str(per_case_timeout)]
-            procs.append((subprocess.Popen(cmd, env=impl_env(), cwd=tmp, stdout=subprocess.DEVNULL, stderr=subprocess.PIPE),
+            procs.append((subprocess.Popen(cmd, env=dict(impl_env(), **(extra_env or {})), cwd=tmp, stdout=subprocess.DEVNULL, stderr=subprocess.PIPE),
                           sh_cases, outp))
         results = [None] * len(cases)
         deadline = time.time() + 60 + per_case_timeout * 2 * max(len(s) for s in shards) / 4 + 600
@@ -340,15 +340,30 @@ def load_prop(prop_id):
     return importlib.import_module('props.' + prop_id.lower())
 
 
+# Environment profiles of the implementation workers.  The properties hold whatever the environment of the process is, and
+# the model has no environment, so half of the cases (the odd ones; recorded in the case as `_env`, honoured by replay) run
+# under profile B: optimised mode (assert statements removed), UserWarning / RuntimeWarning raised as errors, DEBUG logging
+# enabled (what the tools' --debug does), a local time zone with daylight saving, the C locale.
+ENV_PROFILES = {
+    'A': {'flags': (), 'env': {}},
+    'B': {'flags': ('-O', '-W', 'error::UserWarning', '-W', 'error::RuntimeWarning'),
+          'env': {'TZ': 'EST5EDT,M3.2.0,M11.1.0', 'CUV_DEBUG_LOG': '1', 'LC_ALL': 'C', 'LANG': 'C'}},
+}
+
+
 def evaluate(prop, cases):
     """impl + model + judge for a list of cases; returns (problems, stats)"""
     by_flags = collections.defaultdict(list)
+    use_profiles = getattr(prop, 'ENV_PROFILES', True)
     for i, c in enumerate(cases):
-        by_flags[tuple(c.get('py_flags', ()))].append(i)
+        if '_env' not in c and use_profiles and not c.get('py_flags'):
+            c['_env'] = 'B' if i % 2 else 'A'
+        by_flags[(tuple(c.get('py_flags', ())), c.get('_env', 'A'))].append(i)
     impl_out = [None] * len(cases)
-    for flags, idxs in by_flags.items():
+    for (flags, envname), idxs in by_flags.items():
+        prof = ENV_PROFILES.get(envname, ENV_PROFILES['A'])
         outs = run_impl('props.' + prop.ID.lower(), [cases[i] for i in idxs],
-                        per_case_timeout=getattr(prop, 'CASE_TIMEOUT', 15.0), flags=flags)
+                        per_case_timeout=getattr(prop, 'CASE_TIMEOUT', 15.0), flags=tuple(flags) + tuple(prof['flags']), extra_env=prof['env'])
         for i, o in zip(idxs, outs):
             impl_out[i] = o
     lines, owner = [], []
